@@ -5,7 +5,7 @@
      NonNull::add / sub     the result must stay inside the allocation [base, base + bytes]   (ptr::add contract)
      NonNull::new_unchecked the address must not be null
    and every usize addition / subtraction / multiplication goes through the machine arithmetic of Base/Machine.v. *)
-From Matreex Require Export Base.Machine.
+From Matreex Require Export Base.Machine Model.Kernel.
 
 Section IterMut.
 Variable c : cfg.
@@ -100,9 +100,33 @@ Definition Vecs_len (s : IterVecs) : res Z :=
     uadd c 1 q
   end.
 
-(* IterVectorsMut::over_major_axis / over_minor_axis on a matrix with `len` elements *)
-Definition Vecs_over (len axis_str axis_len vec_str vec_len : Z) : res IterVecs :=
-  if len =? 0 then Val Vecs_empty else Vecs_assemble base axis_str axis_len vec_str vec_len.
+(* NonZero::new_unchecked *)
+Definition nz_new_unchecked (a : Z) : res Z := if a =? 0 then UB UBNonZero else Val a.
+
+(* IterVectorsMut::over_major_axis / over_minor_axis on a matrix with `len` stored elements and axis shape `sh`;
+   `base` is matrix.data.as_mut_ptr().  Statement for statement: the emptiness test, the unchecked NonNull / NonZero
+   conversions (UB on 0), then assemble. *)
+Definition Vecs_over_major_axis (len : Z) (sh : AxisShape) : res IterVecs :=
+  if len =? 0 then Val Vecs_empty else
+  let* buffer := nn_new_unchecked base in
+  let* axis_str := nz_new_unchecked (AxisShape_major_stride sh) in
+  let* axis_len := nz_new_unchecked (major sh) in
+  let* vec_str := nz_new_unchecked (AxisShape_minor_stride sh) in
+  let* vec_len := nz_new_unchecked (minor sh) in
+  Vecs_assemble buffer axis_str axis_len vec_str vec_len.
+Definition Vecs_over_minor_axis (len : Z) (sh : AxisShape) : res IterVecs :=
+  if len =? 0 then Val Vecs_empty else
+  let* buffer := nn_new_unchecked base in
+  let* axis_str := nz_new_unchecked (AxisShape_minor_stride sh) in
+  let* axis_len := nz_new_unchecked (minor sh) in
+  let* vec_str := nz_new_unchecked (AxisShape_major_stride sh) in
+  let* vec_len := nz_new_unchecked (major sh) in
+  Vecs_assemble buffer axis_str axis_len vec_str vec_len.
+(* iter.rs: Matrix::iter_rows_mut / iter_cols_mut select the constructor by the storage order *)
+Definition Matrix_iter_rows_mut (o : order) (len : Z) (sh : AxisShape) : res IterVecs :=
+  match o with RowMajor => Vecs_over_major_axis len sh | ColMajor => Vecs_over_minor_axis len sh end.
+Definition Matrix_iter_cols_mut (o : order) (len : Z) (sh : AxisShape) : res IterVecs :=
+  match o with RowMajor => Vecs_over_minor_axis len sh | ColMajor => Vecs_over_major_axis len sh end.
 End IterMut.
 
 (* ---------- the machines driven by a script, as the harness drives the real iterators ----------
@@ -150,11 +174,11 @@ Fixpoint mscript (o : IterVecs) (inners : list IterNth) (script : list Z) : list
 
 (* iter_rows_mut (axis 0) / iter_cols_mut (axis 1) of an nrows x ncols matrix stored in `order` (0 row-major) *)
 Definition mscript_matrix (nrows ncols order axis : Z) (script : list Z) : obs :=
-  let major := if order =? 0 then nrows else ncols in
-  let minor := if order =? 0 then ncols else nrows in
-  let over_major := (order =? axis) in
-  match (if over_major then Vecs_over c es al base bytes (major * minor) minor major 1 minor
-         else Vecs_over c es al base bytes (major * minor) 1 minor minor major) with
+  let o := if order =? 0 then RowMajor else ColMajor in
+  let sh := if order =? 0 then mkAxisShape nrows ncols else mkAxisShape ncols nrows in
+  let len := nrows * ncols in
+  match (if axis =? 0 then Matrix_iter_rows_mut c es al base bytes o len sh
+         else Matrix_iter_cols_mut c es al base bytes o len sh) with
   | Val o => OList (mscript o [] script)
   | Panic w => OPanic w
   | UB w => OUB w
